@@ -66,6 +66,13 @@ def verify_root(trusted_current_root_metadata, untrusted_new_root_metadata):
             '"root".'
         )
 
+    for root_metadata in (trusted_current_root_metadata, untrusted_new_root_metadata):
+        if "root" not in root_metadata["signed"]["delegations"]:
+            raise UnknownRoleError(
+                'Root metadata must delegate to role "root" in order to be '
+                "used in or verified by root chaining; no such delegation found."
+            )
+
     # Extract rules for root from old, trusted version of root.
     root_expectations = trusted_current_root_metadata["signed"]["delegations"]["root"]
     expected_threshold = root_expectations["threshold"]
